@@ -27,6 +27,7 @@ const rtPath = "github.com/projecteru2/core/verifrt"
 type report struct {
 	Rewritten   int      `json:"rewritten"`
 	Ticks       int      `json:"ticks_inserted"`
+	Yields      int      `json:"yield_points_inserted"`
 	RollbackMarks int    `json:"rollback_marks"`
 	Files       int      `json:"files"`
 	Unrewritten []string `json:"unrewritten_map_ranges"`
@@ -77,6 +78,14 @@ func main() {
 			if strings.Contains(p.PkgPath, "resource/plugins/cpumem") {
 				ticks = insertTicks(f)
 				rep.Ticks += ticks
+			}
+			if strings.HasSuffix(p.PkgPath, "discovery/helium") {
+				// yield points: the service-discovery hub has no call into an external party
+				// between its channel operations, so the simulator could never order a
+				// subscriber against the dispatch loop; a tick at every loop head and function
+				// entry lets the scheduler decide
+				ticks = insertTicks(f) + insertFuncTicks(f)
+				rep.Yields += ticks
 			}
 			n := rewriteFile(p, f, name, rep) + ticks
 			if ticks > 0 {
@@ -152,6 +161,20 @@ func insertTicks(f *ast.File) int {
 		}
 		return true
 	})
+	return n
+}
+
+// insertFuncTicks prepends verifrt.DoTick() to every method body (yield points).
+func insertFuncTicks(f *ast.File) int {
+	n := 0
+	for _, d := range f.Decls {
+		fd, ok := d.(*ast.FuncDecl)
+		if !ok || fd.Body == nil || fd.Recv == nil {
+			continue
+		}
+		fd.Body.List = append([]ast.Stmt{&ast.ExprStmt{X: &ast.CallExpr{Fun: sel("verifrt", "DoTick")}}}, fd.Body.List...)
+		n++
+	}
 	return n
 }
 
